@@ -14,9 +14,38 @@ import (
 	"sync"
 )
 
+type stageGroupKey struct{}
+
+// WithStageGroup returns a context that keeps track of every pipeline stage
+// started with Go on it (or on a context derived from it). The caller can wait
+// on the returned group for all stages to stop. This matters when the stages
+// share a resource with a limited lifetime, e.g. a storage transaction: after
+// an error the merged error channel yields as soon as the first stage fails, so
+// the caller has to cancel the context and wait for the rest before the
+// resource goes away.
+func WithStageGroup(ctx context.Context) (context.Context, *sync.WaitGroup) {
+	wg := &sync.WaitGroup{}
+	return context.WithValue(ctx, stageGroupKey{}, wg), wg
+}
+
+// Go runs f in a new goroutine that is tracked by the stage group of ctx, if
+// there is one.
+func Go(ctx context.Context, f func()) {
+	wg, ok := ctx.Value(stageGroupKey{}).(*sync.WaitGroup)
+	if !ok {
+		go f()
+		return
+	}
+	wg.Add(1)
+	go func() {
+		defer wg.Done()
+		f()
+	}()
+}
+
 func ProduceWithContext[T any](ctx context.Context, in []T) <-chan T {
 	out := make(chan T)
-	go func() {
+	Go(ctx, func() {
 		defer close(out)
 		for _, t := range in {
 			select {
@@ -25,13 +54,13 @@ func ProduceWithContext[T any](ctx context.Context, in []T) <-chan T {
 				return
 			}
 		}
-	}()
+	})
 	return out
 }
 
 func ProduceWithContextMapKeys[K comparable, V any](ctx context.Context, in map[K]V) <-chan K {
 	out := make(chan K)
-	go func() {
+	Go(ctx, func() {
 		defer close(out)
 		for k := range in {
 			select {
@@ -40,14 +69,14 @@ func ProduceWithContextMapKeys[K comparable, V any](ctx context.Context, in map[
 				return
 			}
 		}
-	}()
+	})
 	return out
 }
 
 func TransformWithContext[A, B any](ctx context.Context, in <-chan A, transformFn func(A) (out B, skip bool, err error)) (<-chan B, <-chan error) {
 	out := make(chan B)
 	errC := make(chan error, 1)
-	go func() {
+	Go(ctx, func() {
 		defer close(out)
 		defer close(errC)
 		for {
@@ -80,14 +109,14 @@ func TransformWithContext[A, B any](ctx context.Context, in <-chan A, transformF
 				}
 			}
 		}
-	}()
+	})
 	return out, errC
 }
 
 func TransformWithContextMultiple[A, B any](ctx context.Context, in <-chan A, transformFn func(A) (out []B, err error)) (<-chan B, <-chan error) {
 	out := make(chan B)
 	errC := make(chan error, 1)
-	go func() {
+	Go(ctx, func() {
 		defer close(out)
 		defer close(errC)
 		for {
@@ -119,7 +148,7 @@ func TransformWithContextMultiple[A, B any](ctx context.Context, in <-chan A, tr
 				}
 			}
 		}
-	}()
+	})
 	return out, errC
 }
 
@@ -128,7 +157,7 @@ func MergeWithContext[T any](ctx context.Context, cs ...<-chan T) <-chan T {
 	var wg sync.WaitGroup
 	wg.Add(len(cs))
 	for _, c := range cs {
-		go func(c <-chan T) {
+		Go(ctx, func() {
 			defer wg.Done()
 			for {
 				select {
@@ -145,7 +174,7 @@ func MergeWithContext[T any](ctx context.Context, cs ...<-chan T) <-chan T {
 					}
 				}
 			}
-		}(c)
+		})
 	}
 	go func() {
 		wg.Wait()
@@ -182,7 +211,7 @@ func MergeErrorsWithContext(ctx context.Context, cs ...<-chan error) <-chan erro
 
 func SinkWithContext[T any](ctx context.Context, in <-chan T, sinkFn func(T) error) <-chan error {
 	errC := make(chan error, 1)
-	go func() {
+	Go(ctx, func() {
 		defer close(errC)
 		for {
 			select {
@@ -200,6 +229,6 @@ func SinkWithContext[T any](ctx context.Context, in <-chan T, sinkFn func(T) err
 				}
 			}
 		}
-	}()
+	})
 	return errC
 }
